@@ -1,3 +1,57 @@
-From Flodym Require Import Base.ND.
-Theorem placeholder : True. Proof. exact I. Qed.
-Print Assumptions placeholder.
+(* C03 — computed stocks conserve mass: stock change = net inflow x interval length.
+   Statements only.  Generic over every field (Coq's field_theory), instantiated at the reals. *)
+From Coq Require Import List Arith Field_theory Reals RealField.
+Import ListNotations.
+From Flodym Require Import Base.ND Model.Stocks Proofs.StockAlgebra Proofs.StockModel Proofs.StockRoundtrip.
+
+Section G.
+Variable F : Type.
+Variables (fO fI : F) (fadd fmul fsub : F -> F -> F) (fopp : F -> F) (fdiv : F -> F -> F) (finv : F -> F).
+Variable Fth : field_theory fO fI fadd fmul fsub fopp fdiv finv eq.
+Notation nthF := (nthF F fO).
+Notation nth2 := (nth2 F fO).
+
+(* inflow-driven DSM: for every time grid (interval lengths dt, non-zero), every inflow, every
+   lower-triangular survival table, every step t *)
+Theorem C03_balance_inflow_driven :
+  forall (n : nat) (dt inflow : list F) (sf : list (list F)),
+  length dt = n -> length inflow = n -> (forall t c, t < c -> nth2 sf t c = fO) ->
+  forall t, t < n -> nthF dt t <> fO ->
+  let r := idsm F fO fI fadd fmul fsub fdiv true n dt inflow sf in
+  fsub (nthF (o_stock F r) t) (if Nat.eqb t 0 then fO else nthF (o_stock F r) (t - 1))
+  = fmul (nthF dt t) (fsub (nthF inflow t) (nthF (o_outflow F r) t)).
+Proof. exact (balance_idsm F fO fI fadd fmul fsub fopp fdiv finv Fth). Qed.
+
+(* stock-driven DSM (forward substitution; any exact triangular solver returns the same inflow, see C10) *)
+Theorem C03_balance_stock_driven :
+  forall (n : nat) (dt : list F) (sf : list (list F)),
+  length dt = n -> (forall t c, t < c -> nth2 sf t c = fO) ->
+  (forall i, i < n -> nth2 sf i i <> fO) -> (forall i, i < n -> nthF dt i <> fO) ->
+  forall (s : list F) t, length s = n -> t < n ->
+  let r := sdsm F fO fI fadd fmul fsub fdiv true n dt s sf in
+  fsub (nthF s t) (if Nat.eqb t 0 then fO else nthF s (t - 1))
+  = fmul (nthF dt t) (fsub (nthF (o_inflow F r) t) (nthF (o_outflow F r) t)).
+Proof. exact (balance_sdsm F fO fI fadd fmul fsub fopp fdiv finv Fth). Qed.
+
+(* flow-driven stock *)
+Theorem C03_balance_flow_driven :
+  forall (dt inflow outflow : list F) t,
+  length dt = length inflow -> length outflow = length inflow -> t < length inflow ->
+  let s := simple_stock F fO fadd fmul fsub dt inflow outflow in
+  fsub (nthF s t) (if Nat.eqb t 0 then fO else nthF s (t - 1)) = fmul (nthF dt t) (fsub (nthF inflow t) (nthF outflow t)).
+Proof. exact (balance_simple F fO fI fadd fmul fsub fopp fdiv finv Fth). Qed.
+End G.
+Print Assumptions C03_balance_inflow_driven.
+Print Assumptions C03_balance_stock_driven.
+Print Assumptions C03_balance_flow_driven.
+
+(* for ALL real values *)
+Theorem C03_balance_inflow_driven_reals :
+  forall (n : nat) (dt inflow : list R) (sf : list (list R)),
+  length dt = n -> length inflow = n -> (forall t c, t < c -> nth2 R 0%R sf t c = 0%R) ->
+  forall t, t < n -> nthF R 0%R dt t <> 0%R ->
+  let r := idsm R 0%R 1%R Rplus Rmult Rminus Rdiv true n dt inflow sf in
+  (nthF R 0%R (o_stock R r) t - (if Nat.eqb t 0 then 0 else nthF R 0%R (o_stock R r) (t - 1))
+   = nthF R 0%R dt t * (nthF R 0%R inflow t - nthF R 0%R (o_outflow R r) t))%R.
+Proof. exact (C03_balance_inflow_driven R 0%R 1%R Rplus Rmult Rminus Ropp Rdiv Rinv Rfield). Qed.
+Print Assumptions C03_balance_inflow_driven_reals.
